@@ -18,7 +18,9 @@ Metamorphic / differential oracle only (the hash formula is never re-implemented
     length in {1, 2, 31, 32, 40, 45, 46, 47, 48, 63} (a covering closure is compiled in every run; the back ends pad names
     to fixed column widths) and for names that start with the name of an output table / prefix of a back end followed by '_'
     (hash_, HASH_, MT_, MID_, HID_, MDF_, SDF_, typedefs_, defines_, constants_, aliases_, ...: vlib.defgen.TABLE_PREFIXES), with
-    and without a second definition named like the remainder (covering closure in every run, drawn names in the random ones);
+    and without a second definition named like the remainder (covering closure in every run, drawn names in the random ones), and
+    for messages / signals whose name is in use in another namespace of the closure or of the imported core definitions (message
+    QUICK_LOGGER, signal ALL_HOSTS next to module id RTMA_LOG: covering closure in every run, drawn ones with the core imported);
 (e) ``Client.send_message`` stamps the class's ``type_hash`` into the version (``reserved``) field of the outgoing header:
     shipped core classes in process (plain and timecode header), generated classes compiled from generated closures and
     imported in a fresh interpreter; the value on the wire equals the parser's digest prefix.  Hypothesis-drawn sequences
@@ -30,6 +32,11 @@ Metamorphic / differential oracle only (the hash formula is never re-implemented
     whose id belongs to another class: the version is the type_hash of the instance's own class and send_message never raises.
     send_signal(id) of a signal definition stamps the hash of the definition registered for the id at the time of the call,
     also when another revision of the signal was registered (and sent) before in the same process.
+    EDITIONS: a closure and a copy of it in which 1-2 messages keep name, id and memory layout but get another definition text
+    (int -> int32, unsigned int -> uint32, long -> int32, an alias replaced by its native type, char[MAX_LEN] -> char[32],
+    int32[8] -> int32[4 * 2]) are compiled to two Python modules; ONE interpreter imports both (either order, several pairs one
+    after the other); for every message of every module, after each import, MODULE.MDF_<name>.type_hash and the version field
+    of a header sent for MODULE.MDF_<name>() must be the first 32 bits of the parser's digest of THAT edition's text.
 """
 from __future__ import annotations
 
@@ -69,8 +76,12 @@ RULE = ("Hypothesis draws a well-formed base closure (1-6 files, 1-3 directories
         "version field - also in drawn sequences of 3-10 sends on one client that mix core classes, hand-defined classes with explicit "
         "hashes, hand-written classes without type_hash and send_signal calls (plus a table: each hash-less class followed by every hashed "
         "class and back; every pair of revisions of a message id in both registration orders; every pair of revisions of a SIGNAL id: send_signal, "
-        "register the other revision, send_signal again, register the first again, send_signal). Non-trivial = an edit pair, a relocation across files, a send of a class with type_hash after a send of a class "
-        "without one on the same client, or a send of a class whose type_id is registered (pyrtma.message_def) to another class; distinct = (edit kind, what changed, message shape) / "
+        "register the other revision, send_signal again, register the first again, send_signal). EDITIONS: 13+ pairs per run (closure, copy in which 1-2 messages keep name, id and memory layout "
+        "and get another definition text: a native type name replaced by one of the same ctypes class - int -> int32, unsigned int -> uint32, long -> int32, short -> int16, byte -> uint8 -, an alias by "
+        "its native type, an array length respelled - char[MAX_LEN] -> char[32], int32[8] -> int32[4 * 2]; messages whose fields are all natives / aliases of natives preferred) are compiled to two "
+        "Python modules each; one fresh interpreter per shard imports the modules of 3-5 pairs one after the other (either order within a pair) and, after each import, every module's MDF_<name> must "
+        "have the type_hash of ITS edition's digest and a header sent for an instance must carry it. Non-trivial = an edit pair, a relocation across files, a send of a class with type_hash after a send of a class "
+        "without one on the same client, a send of a class whose type_id is registered (pyrtma.message_def) to another class, or a message of an edition pair whose text differs between the editions; distinct = (edit kind, what changed, message shape) / "
         "(relocation: new file?, directory changed?, message shape) / (output language, core imported, kind of message).")
 ASSUME = [
     "a message defined with 'fields: OTHER' has the ordered field list of OTHER (that is what every output declares and what goes on the wire): an edit of OTHER's field list is an edit of the copying message's field list and must change its digest (finding key edit-not-detected/fields-of-copied-definition, recorded without stopping the campaign); the digest of such a message is otherwise only required to be a function of (name, id, OTHER, copied field list)",
@@ -83,6 +94,7 @@ ASSUME = [
     "send_signal(id) is covered for ids of signal definitions known to the process (a registered payload-free class): the header must carry the hash of the definition registered for the id when send_signal is called (also after another revision was registered and sent before), as send_message of an instance does; for ids without a definition, or whose definition has a payload, and for classes without type_hash the version field is a don't-care",
     "messages originated by the manager process itself (ACKNOWLEDGE, FAILED_MESSAGE, CLIENT_INFO, ...) are not covered here: C13 is checked on the compiler and on the client API that applications send with",
     "the hand-written classes of the send sequences are built with MessageMeta on MessageData; they are registered with pyrtma.message_def only by explicit 'register' steps, and pyrtma.message._msg_defs is restored after every sequence",
+    "editions: two generated modules that define the same message id are both importable into one interpreter (the later registration wins the id in pyrtma.message._msg_defs); each module's class is that module's definition: its type_hash and the version it sends are those of its own definition text, whichever module was imported first",
     "near-miss definitions (a field named type_id, type_name, type_hash, type_source, type_def, type_size or hexdump) are expected to be rejected; a rejection is only counted, an acceptance subjects the definition set to (d) and (e)",
     "a well-formed closure the parser rejects (not expected; generator is sound on the reference tree) is counted as inconclusive, acceptance is not this property",
 ]
@@ -931,6 +943,184 @@ def check_generated_stamping(p: G.Program, res: Result = None, timecode: bool = 
         shutil.rmtree(d, ignore_errors=True)
 
 
+# ---- editions of one definition loaded into ONE interpreter ----------------------------------------------------------------------
+
+CHILD_ED = r"""
+import sys, json, socket, struct, importlib.util, logging, warnings
+logging.disable(logging.CRITICAL)
+warnings.simplefilter("ignore")
+jobs = json.load(open(sys.argv[1]))
+import pyrtma
+from pyrtma.client import Client
+a, b = socket.socketpair()
+for s in (a, b):
+    s.setsockopt(socket.SOL_SOCKET, socket.SO_SNDBUF, 1 << 20); s.setsockopt(socket.SOL_SOCKET, socket.SO_RCVBUF, 1 << 20)
+b.settimeout(20)
+c = Client(module_id=11, timecode=bool(jobs["timecode"]))
+c._sock.close(); c._sock = a; c._connected = True
+hs = 56 if jobs["timecode"] else 48
+def rd(n):
+    buf = b""
+    while len(buf) < n:
+        ch = b.recv(n - len(buf))
+        if not ch: raise SystemExit("peer closed")
+        buf += ch
+    return buf
+def look(mod, names):
+    out = {}
+    for n in names:
+        cls = getattr(mod, "MDF_" + n, None)
+        if not isinstance(cls, type):
+            out[n] = None
+            continue
+        th = getattr(cls, "type_hash", None)
+        e = {"type_hash": th if isinstance(th, int) else repr(th), "type_id": getattr(cls, "type_id", None), "module": cls.__module__}
+        try:
+            c.send_message(cls())
+            f = struct.unpack_from("<iiddhhhhiiiI", rd(hs)); rd(f[8])
+            e["version"], e["msg_type"] = f[11], f[0]
+        except Exception as x:
+            e["error"] = type(x).__name__ + ": " + str(x)[:120]
+        out[n] = e
+    return out
+res = []
+loaded = []
+for k, job in enumerate(jobs["modules"]):
+    try:
+        spec = importlib.util.spec_from_file_location(job["mod"], job["path"]); mod = importlib.util.module_from_spec(spec); sys.modules[job["mod"]] = mod
+        spec.loader.exec_module(mod)
+    except BaseException as x:
+        res.append({"mod": job["mod"], "import_error": type(x).__name__ + ": " + str(x)[:200]})
+        continue
+    loaded.append((job, mod))
+    # the module just imported, and every module imported before it (their classes must still be what they were)
+    res.append({"mod": job["mod"], "after": job["mod"], "seen": look(mod, job["names"])})
+    for j2, m2 in loaded[:-1]:
+        if j2["pair"] == job["pair"]:
+            res.append({"mod": j2["mod"], "after": job["mod"], "seen": look(m2, j2["names"])})
+print("RESULT" + json.dumps(res))
+"""
+
+
+def make_editions(ch: G.Chooser, core: bool = False):
+    """-> (first, second) or None: a closure and its layout-preserving re-edition (vlib.defgen_hist.layout_preserving_edit)."""
+    for _ in range(6):
+        base = G.build_program(ch, import_coredefs=core, auto_pad=True, validate_alignment=True, min_messages=2, max_files=3, allow=ALLOW[:4])
+        q = H.layout_preserving_edit(base, ch)
+        if q is not None:
+            return base, q
+    return None
+
+
+def demo_editions():
+    """The smallest pair: one message, every field retyped by a synonym (int -> int32, unsigned -> uint32, short -> int16)."""
+    F = G.FieldSpec
+    def prog(t1, t2, t3, ln):
+        d = G.Def("message", "SAMPLE_COUNT", "root.yaml", id=4321, fields=[F("first", t1, t1), F("count", t1, t1), F("mask", t2, t2), F("step", f"{t3}[{ln}]", t3, 4, ln)])
+        c = G.Def("constant", "N_STEP", "root.yaml", value=4, text="4")
+        return G.Program([G.FileSpec(path="root.yaml", defs=[c, d])], "root.yaml", {"auto_pad": True, "validate_alignment": True, "import_coredefs": False})
+    a, b = prog("int", "unsigned int", "short", "N_STEP"), prog("int32", "uint32", "int16", "4")
+    b.edited = {"kind": "layout-preserving", "names": ["SAMPLE_COUNT"], "old": "SAMPLE_COUNT", "new": "SAMPLE_COUNT", "what": "int -> int32, unsigned int -> uint32, short[N_STEP] -> int16[4]"}
+    return a, b
+
+
+def check_editions(pairs, res: Result = None, timecode: bool = False):
+    """pairs: [(first, second, second_is_imported_first)]; every pair is two editions of one closure that differ in the definition
+    text of 1-2 messages only (same names, ids, sizes, ctypes layouts).  All modules are imported by ONE fresh interpreter, pair after
+    pair; a module's MDF_<name> must carry (type_hash) and send (header.version) the digest prefix of its OWN edition."""
+    import pyrtma.compile as pc
+
+    d = G.scratch_dir("c13ed")
+    try:
+        modules, want, traces = [], {}, {}
+        for k, (p1, p2, swap) in enumerate(pairs):
+            trace = {"stamp": "editions", "first": p1.to_json(), "second": p2.to_json(), "swap": bool(swap), "timecode": timecode}
+            ok = True
+            jobs = []
+            for tag, p in (("first", p1), ("second", p2)):
+                out = G.parse_program(p, dirpath=os.path.join(d, f"src{k}_{tag}"))
+                if not out.ok:
+                    ok = False
+                    break
+                mod = f"ed{k}_{tag}"
+                outdir = os.path.join(d, f"out{k}_{tag}")
+                os.makedirs(outdir)
+                try:
+                    pc.compile(defs_files=[out.root], out_dir=outdir, out_name=mod, python=True, **p.compile_kwargs())
+                except Exception as e:  # noqa  emission failures belong to C15
+                    ok = False
+                    if res is not None:
+                        res.count("inconclusive/compile-failed/" + type(e).__name__)
+                    break
+                names = sorted(message_sigs(p))
+                want[mod] = {n: int(out.parser.message_defs[n].hash[:8], 16) for n in names}
+                traces[mod] = (trace, p2.edited or {}, tag)
+                jobs.append({"mod": mod, "path": os.path.join(outdir, mod + ".py"), "names": names, "pair": k})
+            if not ok:
+                if res is not None:
+                    res.inconclusive += 1
+                continue
+            modules += list(reversed(jobs)) if swap else jobs
+        if not modules:
+            return
+        jf = os.path.join(d, "jobs.json")
+        with open(jf, "w") as f:
+            json.dump({"modules": modules, "timecode": timecode}, f)
+        try:
+            r = subprocess.run([sys.executable, "-c", CHILD_ED, jf], cwd=d, env=_child_env(11), capture_output=True, text=True, stdin=subprocess.DEVNULL, timeout=300)
+        except subprocess.TimeoutExpired:
+            if res is not None:
+                res.inconclusive += 1
+            return
+        m = re.search(r"^RESULT(.*)$", r.stdout, re.M)
+        if r.returncode != 0 or not m:
+            if res is not None:
+                res.inconclusive += 1
+                res.count("inconclusive/editions-child-failed")
+                res.notes.append(("editions child failed: " + r.stderr[-300:]).replace("\n", " | "))
+            return
+        for rec in json.loads(m.group(1)):
+            mod = rec["mod"]
+            trace, edited, tag = traces[mod]
+            if "import_error" in rec:
+                if res is not None:  # a module that does not load is C15's subject
+                    res.inconclusive += 1
+                    res.count("inconclusive/generated-module-not-loadable")
+                continue
+            other = rec["after"] != mod
+            pair = next(j["pair"] for j in modules if j["mod"] == mod)
+            first_mod = next(j["mod"] for j in modules if j["pair"] == pair)
+            situation = "earlier-module-after-the-later-import" if other else ("imported-first" if mod == first_mod else "imported-second")
+            when = {"earlier-module-after-the-later-import": f"imported first, looked at again after the module of the other edition ({rec['after']}) was imported",
+                    "imported-first": "imported first", "imported-second": f"imported after the module of the other edition ({first_mod})"}[situation]
+            second_loaded = situation != "imported-first"
+            for n, g in rec["seen"].items():
+                w = want[mod][n]
+                touched = n in (edited.get("names") or [])
+                tail = f" [editions differ in: {edited.get('what', '')[:200]}]" if touched else ""
+                if g is None:
+                    raise Violation("generated-class-missing", f"module {mod} ({tag} edition, {when}) has no class MDF_{n}", trace)
+                if g.get("error"):
+                    raise Violation("send-message-raised/editions", f"send_message({mod}.MDF_{n}()) raised {g['error']} ({tag} edition, {when})", trace)
+                if g["type_hash"] != w:
+                    th = f"{g['type_hash']:#010x}" if isinstance(g["type_hash"], int) else g["type_hash"]
+                    raise Violation("type-hash-of-another-edition" if second_loaded else "generated-type-hash-differs", f"{mod}.MDF_{n}.type_hash is {th} ({tag} edition, {when}; the class "
+                                    f"object belongs to module {g['module']}); the parser's digest of this edition's definition starts with {w:08x}{tail}", trace)
+                if g["version"] != w:
+                    raise Violation("header-version-of-another-edition" if second_loaded else "header-version-not-stamped", f"send_message({mod}.MDF_{n}()) put {g['version']:#010x} into the "
+                                    f"header's version field ({tag} edition, {when}); the parser's digest of this edition's definition starts with {w:08x}{tail}", trace)
+                if res is not None:
+                    res.count("headers-checked/editions")
+                    if touched:
+                        res.count("headers-checked/editions/of-a-message-whose-text-differs-between-the-editions")
+                        res.shape("editions", tag, situation, timecode)
+                        res.count("editions/" + situation)
+        if res is not None:
+            res.count("edition-pairs", len(pairs))
+    finally:
+        shutil.rmtree(d, ignore_errors=True)
+
+
 # ----------------------------------------------------------------------------------------------
 # near misses: definitions that must be rejected because a field uses a reserved name
 
@@ -1006,7 +1196,13 @@ def shard(idx: int, seed: int, n_meta: int, out_every: int, n_proc: int, n_stamp
         # outputs with the core definitions imported (core messages appear in Python / JS / MATLAB)
         for k in range(1 if idx % 4 else 2):
             res.evaluations += 1
-            check_outputs(G.build_program(rnd, import_coredefs=True, min_messages=2, allow=ALLOW), res)
+            check_outputs(G.build_program(rnd, import_coredefs=True, min_messages=2, allow=ALLOW + ("cross-namespace-names",)), res)
+        if idx in (5, 6):
+            # messages and signals called like core module ids / host ids, module and host ids called like core messages (names are
+            # unique per namespace): every one of them has its hash in all four outputs
+            res.evaluations += 1
+            check_outputs(G.build_cross_namespace_cover_program(idx == 5), res)
+            res.count("cross-namespace-cover-closures-compiled")
         if idx % 4 == 3 or not quick:
             # identifiers of every length in the covering set {1, 2, 31, 32, 40, 45, 46, 47, 48, 63} (and two drawn ones) for
             # messages, signals, structs, constants, module and host ids: the outputs pad names to fixed column widths
@@ -1030,6 +1226,19 @@ def shard(idx: int, seed: int, n_meta: int, out_every: int, n_proc: int, n_stamp
             check_core_stamping(res)
         if idx == 1:
             sequence_table(res)
+        if idx % 4 == 0 or not quick:
+            # two editions of a closure (same names, ids and memory layouts, other definition text of 1-2 messages) imported by ONE
+            # interpreter, several pairs one after the other, either import order
+            pairs = []
+            if idx == 0:
+                a, b = demo_editions()
+                pairs += [(a, b, False), (a, b, True)]
+            for k in range(3 if quick else 8):
+                e = make_editions(rnd, core=(k == 0 and idx % 8 == 0))
+                if e is not None:
+                    pairs.append((e[0], e[1], k % 2 == 1))
+            res.evaluations += len(pairs)
+            check_editions(pairs, res, timecode=bool(idx % 8))
         # every reserved field name in a message (shards 0-6) and in a struct (7-13)
         if idx % 4 == 2 or not quick:
             # definitions named <table>_<rest> for every output table / prefix of the four back ends (hash_, HASH_, MT_, MID_, HID_,
@@ -1079,6 +1288,8 @@ def replay_trace(trace: dict):
         run_sequence(trace["timecode"], trace["ops"])
     elif trace.get("stamp") == "core":
         check_core_stamping()
+    elif trace.get("stamp") == "editions":
+        check_editions([(G.Program.from_json(trace["first"]), G.Program.from_json(trace["second"]), trace.get("swap", False))], timecode=trace.get("timecode", False))
     elif trace.get("stamp") == "generated":
         check_generated_stamping(G.Program.from_json(trace["program"]), timecode=trace.get("timecode", False))
     elif "base" in trace:
